@@ -1,4 +1,5 @@
 """C02 - minimum image convention (ALG identity of the kernels, EXH decision table, SIB override set)."""
+import re
 import sympy as sp
 from sympy import Matrix
 from vsa import front
@@ -157,17 +158,18 @@ def run(rep, tier):
               "Topology::BCShortestConnection does not forward (r_i, r_j) unchanged to the boundary object", fb.loc(), sample=True)
     fg = F.one(T + "getDist")
     rep.analysed(fg)
-    r = [n for n in fg.walk() if n["k"] == "return"]
-    ok = False
-    got = "?"
-    if len(r) == 1:
-        e = unwrap(r[0]["value"])
-        got = show(e)
-        if e.get("k") == "mcall" and e.get("callee") == T + "BCShortestConnection":
-            ps = fg.j["params"]
-            ok = show(e["args"][0]) == "getBead(%s)->getPos()" % ps[0]["name"] and show(e["args"][1]) == "getBead(%s)->getPos()" % ps[1]["name"]
+    fog = Fold(fg, record_calls=r"Topology::BCShortestConnection$").run()
+    cl = [e for e in fog.events if e["kind"] == "call"]
+    ps = [p_["name"] for p_ in fg.j["params"]]
+    ok, got = False, "no BCShortestConnection call"
+    if len(cl) == 1 and len(fog.returns) == 1 and len(ps) == 2:
+        a0, a1 = cl[0]["args"][0], cl[0]["args"][1]
+        got = "%s, %s" % (short(a0), short(a1))
+        want0 = vec_atoms("getPos(getBead(this, %s))" % ps[0])
+        want1 = vec_atoms("getPos(getBead(this, %s))" % ps[1])
+        ok = isinstance(a0, Matrix) and isinstance(a1, Matrix) and a0 == want0 and a1 == want1 and fog.returns[0][0] == cl[0]["value"] and not cl[0]["guards"]
     rep.check(ok, "R2.4", "forward|Topology::getDist", "getDist(b1,b2) = BC(pos(b1), pos(b2))",
-              "Topology::getDist returns %s, not BCShortestConnection(pos(bead1), pos(bead2))" % got, fg.loc(), sample=True)
+              "Topology::getDist calls BCShortestConnection with (%s), not (pos(bead1), pos(bead2)), or does not return its result" % got, fg.loc(), sample=True)
     rep.assumptions += ["round is treated as an uninterpreted function: identity of formulas is decided, not the "
                         "floating-point behaviour at exact half-box ties",
                         "integer-combination, antisymmetry and translation invariance are consequences of the verified "
@@ -210,66 +212,63 @@ def diagnose(val, want, cls):
 
 
 def check_setbox(rep, f):
+    """Topology::setBox folded with the requested box type bound to each enumerator: which boundary class is created, that typeAuto is resolved
+    through autoDetectBoxType(box), and that the box is forwarded to the new object"""
+    from vsa.alg import ENUM_SYMS
+    from vsa.cases import executes
     ps = f.j["params"]
-    sw = [n for n in f.walk() if n["k"] == "switch"]
-    if len(sw) != 1:
-        rep.broken("R2.4", "Topology::setBox: expected one switch over the box type")
-        return
-    cond = unwrap(sw[0]["cond"])
-    rep.check(cond.get("decl") == ps[1]["decl"], "R2.4", "setbox|switch-var", "switch over the boxtype parameter",
-              "Topology::setBox switches over %s" % show(cond), f.loc(sw[0]))
-    # cases -> created class
-    created = {}
-    label = None
-    labels = []
-    for st in sw[0]["body"]["stmts"]:
-        while st.get("k") in ("case", "default"):
-            labels.append(st.get("enumerator", "default").split("::")[-1] if st["k"] == "case" else "default")
-            st = st["sub"]
-        e = unwrap(st)
-        if e.get("k") in ("opcall", "assign"):
-            rhs = unwrap(e["args"][1] if e["k"] == "opcall" else e["rhs"])
-            tgt = show(e["args"][0] if e["k"] == "opcall" else e["lhs"])
-            while rhs.get("k") in ("construct", "cast") and rhs.get("args"):
-                rhs = unwrap(rhs["args"][0])
-            if rhs.get("k") == "call" and (rhs.get("callee") or "").startswith("std::make_unique") and tgt == "bc_":
-                cls = rhs["type"]
-                for l in labels:
-                    created[l] = cls
-                labels = []
-    def cls_of(t):
-        import re
-        m = re.search(r"votca::csg::(\w+Box)", t)
-        return m.group(1) if m else t
-    got = {k: cls_of(v) for k, v in created.items()}
-    want = {"typeTriclinic": "TriclinicBox", "typeOrthorhombic": "OrthorhombicBox"}
-    ok = all(got.get(k) == v for k, v in want.items()) and (got.get("typeOpen", got.get("default")) == "OpenBox")
-    rep.check(ok, "R2.4", "setbox|table", "box type -> class: %s" % got,
-              "Topology::setBox creates %s; expected typeTriclinic->TriclinicBox, typeOrthorhombic->OrthorhombicBox, "
-              "typeOpen/default->OpenBox" % got, f.loc(sw[0]), sample=True)
-    # auto detection precedes the switch, bc_->setBox(box) follows it on every path
-    g = CFG(f)
-    auto = [n for n in f.walk() if n.get("k") == "mcall" and n.get("callee") == "votca::csg::Topology::autoDetectBoxType"]
-    ok = False
-    if auto:
-        a = auto[0]
-        par = f.nodes.get(f.parent[a["id"]])
-        ok = (par is not None and par.get("k") == "assign" and unwrap(par["lhs"]).get("decl") == ps[1]["decl"]
-              and unwrap(a["args"][0]).get("decl") == ps[0]["decl"])
-        # guarded by boxtype == typeAuto
-        guards = [x for x in f.ancestors(a) if x.get("k") == "if"]
-        ok = ok and len(guards) == 1 and show(guards[0]["cond"]) in ("(boxtype == typeAuto)", "(typeAuto == boxtype)")
-        swid = unwrap(sw[0]["cond"])["id"]
-        ok = ok and g.where[a["id"]][0] != g.where[swid][0] and not g.dominates(swid, a["id"])
-    rep.check(ok, "R2.4", "setbox|auto", "typeAuto is resolved by autoDetectBoxType(box) before the switch",
-              "Topology::setBox does not resolve typeAuto through autoDetectBoxType(box) before creating the boundary object",
-              f.loc(auto[0] if auto else None))
-    fw = [n for n in f.walk() if n.get("k") == "mcall" and n.get("callee") == BC + "setBox"]
-    ok = False
-    if fw:
-        ok = unwrap(fw[0]["args"][0]).get("decl") == ps[0]["decl"] and "bc_" in show(fw[0]["obj"]) and \
-            all(g.dominates_block(g.where[fw[0]["id"]][0], b) for b in g.exit_blocks())
-        swid = unwrap(sw[0]["cond"])["id"]
-        ok = ok and g.dominates(swid, fw[0]["id"])
-    rep.check(ok, "R2.4", "setbox|forward", "bc_->setBox(box) after the switch on every path",
-              "Topology::setBox does not forward the box matrix to the new boundary object on every path", f.loc(fw[0] if fw else None))
+    EB = "votca::csg::BoundaryCondition::eBoxtype::"
+    cls_of = lambda v: (re.search(r"make_unique<(\w+)>", str(v)) or [None, str(v)[:40]])[1]
+    want = {"typeTriclinic": "TriclinicBox", "typeOrthorhombic": "OrthorhombicBox", "typeOpen": "OpenBox"}
+
+    def fold_with(bt):
+        sym = S(EB + bt)
+        ENUM_SYMS.add(sym)
+        return Fold(f, record_calls=r"BoundaryCondition::setBox$|Topology::autoDetectBoxType$").run({ps[1]["decl"]: sym})
+    got = {}
+    fwd_ok = True
+    for bt in want:
+        fo = fold_with(bt)
+        st = [e for e in fo.events if e["kind"] == "store" and e["target"].replace(" ", "") == "bc_"]
+        live = [e for e in st if executes(e, None, None, None, getattr(fo, "conds", {})) is True]
+        got[bt] = cls_of(live[-1]["value"]) if len(live) >= 1 else "nothing"
+        fw = [e for e in fo.events if e["kind"] == "call" and e["callee"].endswith("BoundaryCondition::setBox")]
+        fwd_ok = fwd_ok and len(fw) == 1 and not fw[0]["guards"] and not fw[0]["not"] and bool(live) and fo.events.index(fw[0]) > fo.events.index(live[-1]) \
+            and "bc_" in nows_(show(fw[0]["node"]["obj"])) and isinstance(fw[0]["args"][0], Matrix) and fw[0]["args"][0] == mat_atoms(ps[0]["name"])
+        if any(e["kind"] == "call" and e["callee"].endswith("autoDetectBoxType") for e in fo.events):
+            got[bt] += " (after auto-detection although the type was given)"
+    rep.check(got == want, "R2.4", "setbox|table", "box type -> class: %s" % got,
+              "Topology::setBox creates %s; expected typeTriclinic->TriclinicBox, typeOrthorhombic->OrthorhombicBox, typeOpen->OpenBox" % got, f.loc(), sample=True)
+    rep.holds("R2.4", "setbox|switch-var", "the class depends on the boxtype parameter (decided by binding it)", f.loc())
+    # typeAuto: resolved by autoDetectBoxType(box), then the same table
+    fo = fold_with("typeAuto")
+    au = [e for e in fo.events if e["kind"] == "call" and e["callee"].endswith("autoDetectBoxType")]
+    ok = len(au) == 1 and not au[0]["guards"] and isinstance(au[0]["args"][0], Matrix) and au[0]["args"][0] == mat_atoms(ps[0]["name"])
+    gota = {}
+    if ok:
+        det = au[0]["value"]
+        st = [e for e in fo.events if e["kind"] == "store" and e["target"].replace(" ", "") == "bc_"]
+        for r_ in want:
+            def orc(lf, r_=r_):
+                if isinstance(lf, tuple) and lf and lf[0] == "switch" and len(lf) == 3 and lf[1] == det:
+                    labs = [str(x).split("::")[-1] for x in lf[2]]
+                    others = [l_ for e in st for g_ in e["guards"] if isinstance(g_[0], tuple) and g_[0] and g_[0][0] == "switch" for l_ in [str(x).split("::")[-1] for x in g_[0][2]]]
+                    return ("sel", r_ in labs or ("default" in labs and r_ not in others))
+                if isinstance(lf, tuple) and len(lf) == 3 and lf[0] in ("==", "!=") and det in (lf[1], lf[2]):
+                    other = lf[2] if lf[1] == det else lf[1]
+                    return ("sel", (str(other).split("::")[-1] == r_) == (lf[0] == "=="))
+                return None
+            live = [e for e in st if executes(e, None, {"sel": True}, orc, getattr(fo, "conds", {})) is True]
+            gota[r_] = cls_of(live[-1]["value"]) if live else "nothing"
+        ok = gota == want
+    rep.check(ok, "R2.4", "setbox|auto", "typeAuto is resolved by autoDetectBoxType(box) and then mapped like an explicit type",
+              "Topology::setBox does not resolve typeAuto through autoDetectBoxType(box) before creating the boundary object (detected type -> class: %s)" % gota,
+              f.loc(au[0]["node"] if au else None))
+    fw = [e for e in fo.events if e["kind"] == "call" and e["callee"].endswith("BoundaryCondition::setBox")]
+    fwd_ok = fwd_ok and len(fw) == 1 and not fw[0]["guards"] and not fw[0]["not"]
+    rep.check(fwd_ok, "R2.4", "setbox|forward", "bc_->setBox(box) after the boundary object was created, on every path",
+              "Topology::setBox does not forward the box matrix to the new boundary object on every path", f.loc(fw[0]["node"] if fw else None))
+
+
+def nows_(s):
+    return re.sub(r"\s+", "", s)
